@@ -116,12 +116,25 @@ Fixpoint kloop (st : bool) (d k : nat) (X : list vec) (thr : Q) (fuel : nat)
       else kloop st d k X thr f c' z' (upd_best bJ J)
   end.
 
-(* _kmeans(X, k, Labels, maxiter, delta) with a given initial labelling.
+Definition km_centers {A} (r : list vec * list nat * A) := fst (fst r).
+Definition km_labels {A} (r : list vec * list nat * A) := snd (fst r).
+Definition km_J {A} (r : list vec * list nat * A) := snd r.
+
+(* the loop of _kmeans(X, k, Labels, maxiter, delta) with a given initial labelling:
+   last centres, last labels and the (now dead) bJ bookkeeping.
    maxiter = 0 is excluded by `kmeans` (the implementation would raise
    NameError); here it returns the initial labelling with its means. *)
-Definition kmeans (st : bool) (d k : nat) (X : list vec) (labels : list nat) (maxiter : nat) (delta : Q)
+Definition kmeans_core (st : bool) (d k : nat) (X : list vec) (labels : list nat) (maxiter : nat) (delta : Q)
   : list vec * list nat * option Q :=
   kloop st d k X (delta * vdata d X) maxiter (mstep d X labels k) labels None.
+
+(* _kmeans as it is since /repo 6270706: the `else` of the outer `for` (always taken,
+   the outer loop has no break - also when the inner loop broke on convergence) returns
+   the last centres and labels and  bJ = np.sum((X - centers_output[z_output]) ** 2). *)
+Definition kmeans (st : bool) (d k : nat) (X : list vec) (labels : list nat) (maxiter : nat) (delta : Q)
+  : list vec * list nat * Q :=
+  let r := kmeans_core st d k X labels maxiter delta in
+  (km_centers r, km_labels r, wcss d X (km_labels r) (km_centers r)).
 
 (* kmeans(X, nbclusters, Labels, maxiter, delta) with Labels given and of the
    right size: the argument normalisation of the public wrapper, as written
@@ -136,15 +149,12 @@ Definition api_labels_ok (k2 : Z) (labels : list nat) : bool :=
 Definition api_maxiter (ok : bool) (maxiter : Z) : Z :=
   if ok then (if (0 <? maxiter)%Z then maxiter else 300%Z) else maxiter.
 Definition kmeans_api (st : bool) (d : nat) (k : Z) (X : list vec) (labels : list nat) (maxiter : Z) (delta : Q)
-  : list vec * list nat * option Q :=
+  : list vec * list nat * Q :=
   let k2 := api_k k (length X) in
   let ok := api_labels_ok k2 labels in
   let de := if ok then (if Qltb delta 0 then default_delta else delta) else delta in
   kmeans st d (Z.to_nat k2) X labels (Z.to_nat (api_maxiter ok maxiter)) de.
 
-Definition km_centers (r : list vec * list nat * option Q) := fst (fst r).
-Definition km_labels (r : list vec * list nat * option Q) := snd (fst r).
-Definition km_J (r : list vec * list nat * option Q) := snd r.
 
 (* ---- comparison helpers for the harness ------------------------------- *)
 Fixpoint qvec_eqb (a b : vec) : bool :=
@@ -173,14 +183,14 @@ Definition oq_eqb (a b : option Q) : bool :=
   end.
 
 Definition kmeans_agrees (st : bool) (d k : nat) (X : list vec) (labels : list nat) (maxiter : nat) (delta : Q)
-           (cs : list vec) (z : list nat) (J : option Q) : bool :=
+           (cs : list vec) (z : list nat) (J : Q) : bool :=
   let r := kmeans st d k X labels maxiter delta in
-  qmat_eqb (km_centers r) cs && nats_eqb (km_labels r) z && oq_eqb (km_J r) J.
+  qmat_eqb (km_centers r) cs && nats_eqb (km_labels r) z && Qeq_bool (km_J r) J.
 
 Definition kmeans_api_agrees (st : bool) (d : nat) (k : Z) (X : list vec) (labels : list nat) (maxiter : Z) (delta : Q)
-           (cs : list vec) (z : list nat) (J : option Q) : bool :=
+           (cs : list vec) (z : list nat) (J : Q) : bool :=
   let r := kmeans_api st d k X labels maxiter delta in
-  qmat_eqb (km_centers r) cs && nats_eqb (km_labels r) z && oq_eqb (km_J r) J.
+  qmat_eqb (km_centers r) cs && nats_eqb (km_labels r) z && Qeq_bool (km_J r) J.
 
 Definition estep_agrees (st : bool) (d : nat) (X cs : list vec) (z : list nat) (J : Q) : bool :=
   nats_eqb (estep_z st d X cs) z && Qeq_bool (estep_J st d X cs) J.
